@@ -40,6 +40,19 @@ def acc_decls(mod, ctx):
     return out
 
 
+def shift_register_maps(mod, delta):
+    from snaxc.dialects import accfg
+    for op in list(mod.walk()):
+        if isinstance(op, accfg.AcceleratorOp):
+            new = accfg.AcceleratorOp(op.name_prop, {k: v.value.data + delta for k, v in op.field_items()},
+                                      {k: v.value.data + delta for k, v in op.launch_field_items()}, op.barrier.value.data + delta)
+            for k, v in op.attributes.items():
+                new.attributes[k] = v
+            blk = op.parent_block()
+            blk.insert_op_before(new, op)
+            blk.erase_op(op)
+
+
 def acc_specs_for(ctx, rng, names):
     specs = {}
     for n in names:
@@ -99,6 +112,7 @@ def run(pid: str, tier: str, seed: int, selftest=False, replay=None) -> int:
     for k in range(n_gen):
         text, argdom, opq, accs = gen_program(seed, k, ctx)
         sources.append((f"gen:{seed}:{k}", text, argdom, opq, accs, k % 2))
+    njob = 0
     for name, text, argdom, opq, accs, overlap in sources:
         try:
             m = repo.parse(text)
@@ -114,6 +128,11 @@ def run(pid: str, tier: str, seed: int, selftest=False, replay=None) -> int:
         except Exception:
             rep.skipped += 1   # upstream passes are judged by C01/C06/C07
             continue
+        # the same accelerator in another configuration has another register map: every third module declares its (CSR) accelerators with all
+        # addresses moved by a module-specific distance (the declaration in the module is what the lowering has to follow)
+        njob += 1
+        if njob % 3 == 0 and accs != ["gemmini"]:
+            shift_register_maps(m, 16 * (1 + njob % 5))
         low = m.clone()
         try:
             decls = acc_decls(m, ctx)
